@@ -1,8 +1,11 @@
 package props
 
 import (
+	crand "crypto/rand"
 	"encoding/json"
 	"math/rand"
+	"sync"
+	"time"
 
 	"verif/harness/core"
 
@@ -26,6 +29,25 @@ type PrepSpec struct {
 	Ty    int     `json:"ty"`
 	Data  B       `json:"data"`
 	Steps []PStep `json:"steps"`
+	// Concurrent: the setting changes of Steps are applied first, then every connection sends the
+	// message once, all at the same time; the mask source is held at its first Read until all
+	// senders are under way, so that a rendering is in progress while the others arrive
+	Concurrent bool `json:"concurrent,omitempty"`
+}
+
+type gateReader struct {
+	once    sync.Once
+	release chan struct{}
+}
+
+func (g *gateReader) Read(p []byte) (int, error) {
+	g.once.Do(func() {
+		select {
+		case <-g.release:
+		case <-time.After(2 * time.Second):
+		}
+	})
+	return crand.Read(p)
 }
 
 func prepExec(s core.Spec) core.Exec {
@@ -61,7 +83,16 @@ func prepExec(s core.Spec) core.Exec {
 	nops := 0
 	var res []int
 	isData := sp.Ty == 1 || sp.Ty == 2
-	for _, st := range sp.Steps {
+	steps := sp.Steps
+	if sp.Concurrent {
+		steps = nil
+		for _, st := range sp.Steps {
+			if st.K != 0 {
+				steps = append(steps, st)
+			}
+		}
+	}
+	for _, st := range steps {
 		if st.Conn >= len(conns) {
 			continue
 		}
@@ -107,6 +138,49 @@ func prepExec(s core.Spec) core.Exec {
 			for i := range caller {
 				caller[i] ^= 0xff
 			}
+		}
+	}
+	if sp.Concurrent {
+		gate := &gateReader{release: make(chan struct{})}
+		hookMu.Lock()
+		restore := websocket.VerifSetMaskRand(gate)
+		errs := make([]error, len(conns))
+		var wg sync.WaitGroup
+		start := make(chan struct{})
+		for i := range conns {
+			wg.Add(1)
+			go func(i int) {
+				defer wg.Done()
+				<-start
+				errs[i] = conns[i].c.WritePreparedMessage(pm)
+			}(i)
+		}
+		close(start)
+		time.Sleep(300 * time.Microsecond)
+		close(gate.release)
+		wg.Wait()
+		restore()
+		hookMu.Unlock()
+		for i, cs := range conns {
+			var wcs, ccs [][]byte
+			if sp.Conns[i].Negotiated && cs.wcomp && isData {
+				x := newShadow(cs.level)
+				wcs = x.write(original)
+				ccs = x.flush()
+			}
+			var pkeys [][]byte
+			for _, e := range cs.log {
+				if e.kind == 2 || e.kind == 3 {
+					pkeys = append(pkeys, frameKeys(e.full)...)
+				}
+			}
+			ops.N(i).N(10).N(1).N(sp.Ty).Bytes(original)
+			ops.N(0)
+			ops.BytesList(pkeys)
+			ops.BytesList(wcs)
+			ops.BytesList(ccs)
+			res = append(res, werrCode(errs[i]))
+			nops++
 		}
 	}
 	full := t.String() + " " + itoa(nops)
@@ -174,7 +248,55 @@ func c19Gen(rng *rand.Rand, tier string) []core.Spec {
 	return out
 }
 
+func c19cGen(rng *rand.Rand, tier string) []core.Spec {
+	n := 150
+	if tier == "thorough" {
+		n = 3000
+	}
+	var out []core.Spec
+	for i := 0; i < n; i++ {
+		sp := &PrepSpec{Ty: core.Pick(rng, []int{1, 2, 2, 9}), Concurrent: true}
+		sp.Data = genWPayload(rng, core.Pick(rng, []int{0, 5, 125, 4096, 4097, 9000, 20000}))
+		if sp.Ty >= 8 {
+			sp.Data = genWPayload(rng, core.Pick(rng, []int{0, 2, 125}))
+		}
+		// several connections per key, so that senders meet at the same cache entry
+		for k := 3 + rng.Intn(6); k > 0; k-- {
+			switch rng.Intn(4) {
+			case 0:
+				sp.Conns = append(sp.Conns, PConn{Server: true, Negotiated: rng.Intn(2) == 0})
+			case 1:
+				sp.Conns = append(sp.Conns, PConn{Server: false, Negotiated: true})
+			default:
+				sp.Conns = append(sp.Conns, PConn{Server: false, Negotiated: false})
+			}
+		}
+		for k := rng.Intn(4); k > 0; k-- {
+			st := PStep{Conn: rng.Intn(len(sp.Conns)), K: 1, Bv: rng.Intn(2) == 0}
+			if rng.Intn(2) == 0 {
+				st.K, st.L = 2, core.Pick(rng, []int{-2, 1, 9})
+			}
+			sp.Steps = append(sp.Steps, st)
+		}
+		out = append(out, sp)
+	}
+	return out
+}
+
 func init() {
+	core.Register(&core.Prop{
+		ID:     "C19c",
+		Serial: true,
+		Rule:   "one PreparedMessage shared by 3-8 connections (several per cache key: client/server x compression negotiated/enabled x level), all sending it at the same moment from their own goroutines while the mask source is held at its first Read so that a rendering is in progress when the other senders arrive; each connection's log is judged as in C19 (Spec decoder + model)",
+		Gen:    c19cGen,
+		Exec:   prepExec,
+		Decode: func(raw json.RawMessage) (core.Spec, error) {
+			var s PrepSpec
+			err := json.Unmarshal(raw, &s)
+			return &s, err
+		},
+		Clauses: writerClauses,
+	})
 	core.Register(&core.Prop{
 		ID:   "C19",
 		Rule: "one PreparedMessage (text/binary of 0..9000 bytes incl. sizes around the 4096-byte internal buffer; ping/pong/close of 0..126 bytes) shared by 2-6 connections drawn from {client, server} x {compression negotiated or not}; 4-15 steps: send to a random connection | EnableWriteCompression | SetCompressionLevel | flip every byte of the caller's slice; each connection's log is decoded by the Spec decoder and compared with WriteMessage's meaning and with the model's cache semantics",
